@@ -13,8 +13,18 @@ using namespace std;
 double DownhillSimplexMethod::DSMStopCondition::getCurrentTolerance() const
 {
   const DownhillSimplexMethod* dsm = dynamic_cast<const DownhillSimplexMethod*>(optimizer_);
-  double rTol = 2.0 * NumTools::abs(dsm->y_[dsm->iHighest_] - dsm->y_[dsm->iLowest_]) /
-      (NumTools::abs(dsm->y_[dsm->iHighest_]) + NumTools::abs(dsm->y_[dsm->iLowest_]));
+  // iHighest_ and iLowest_ were ranked before the last step replaced the highest vertex:
+  // the spread is measured on the current values.
+  double yHighest = dsm->y_[0], yLowest = dsm->y_[0];
+  for (size_t i = 1; i < dsm->y_.size(); ++i)
+  {
+    if (dsm->y_[i] > yHighest)
+      yHighest = dsm->y_[i];
+    if (dsm->y_[i] < yLowest)
+      yLowest = dsm->y_[i];
+  }
+  double rTol = 2.0 * NumTools::abs(yHighest - yLowest) /
+      (NumTools::abs(yHighest) + NumTools::abs(yLowest));
   return rTol;
 }
 
